@@ -41,4 +41,12 @@ def stogC06 (ε εA : α) (rs : List (NRect α)) : List (NRect α) :=
     | none => l
     | some (b, _) => labelN ε εA (swap0 l b)
 
+/-- `Module.create_stog()`: `return create_stog(self.rectangles)` — the value `create_stog` returns for the module's own
+    list (the C06 model on the plain rectangles; `none` = its `assert len(rectangles) > 0`), and the module afterwards: the
+    list has been reordered and labelled in place. -/
+def Mod.createStog (ε εA : α) (m : Mod α) : Option (Bool × Mod α) :=
+  match Stog.createStog ε εA (m.rects.map NRect.toRect) with
+  | none => none
+  | some (b, _) => some (b, { m with rects := stogC06 ε εA m.rects })
+
 end FV.NL
